@@ -479,6 +479,57 @@ fn set_tree(cx: &mut Ctx, thorough: bool, seed: u64, worker: u64, workers: u64) 
     }
 }
 
+/// set `prog`: EVERY builder program of up to 3 (thorough: 4) setter calls - chmod_b (all / dirs / files / sym / follow / recurse /
+/// no_recurse / readonly / secure), chown_b (uid / gid / owner / follow / recurse), copy_b (chmod_all / chmod_dirs / chmod_files /
+/// follow) - executed on one fixed tree with directories, files of different modes and a link; last setter wins
+fn set_prog(cx: &mut Ctx, thorough: bool, worker: u64, workers: u64) {
+    let setup = vec![
+        call("mkdir_p", "/s/d", ""),
+        call_d("write_all", "/s/f", b"x"),
+        call_d("write_all", "/s/d/g", b"y"),
+        call_m("chmod", "/s/d", 0o750, 0),
+        call_m("chmod", "/s/d/g", 0o604, 0),
+        call("symlink", "/s/l", "/s/d"),
+        call("mkdir_p", "/t", ""),
+    ];
+    let maxlen = if thorough { 4 } else { 3 };
+    fn seqs(alpha: &[(u8, u32)], maxlen: usize) -> Vec<Vec<(u8, u32)>> {
+        let mut out: Vec<Vec<(u8, u32)>> = vec![vec![]];
+        let mut layer: Vec<Vec<(u8, u32)>> = vec![vec![]];
+        for _ in 0..maxlen {
+            let mut next = vec![];
+            for s in &layer {
+                for a in alpha {
+                    let mut t = s.clone();
+                    t.push(*a);
+                    next.push(t);
+                }
+            }
+            out.extend(next.iter().cloned());
+            layer = next;
+        }
+        out
+    }
+    // codes as in ops::apply ("chmod_seq" / "chown_seq" / "copy_seq")
+    let chmod_alpha: Vec<(u8, u32)> = vec![(1, 0o700), (2, 0o711), (3, 0o640), (5, 0), (6, 0), (7, 0), (7, 2), (8, 0), (9, 0)];
+    let chown_alpha: Vec<(u8, u32)> = vec![(1, 5 * 256 + 7), (2, 5 * 256 + 7), (3, 6 * 256 + 8), (5, 0), (6, 0)];
+    let copy_alpha: Vec<(u8, u32)> = vec![(1, 0o700), (2, 0o711), (3, 0o640), (4, 0), (5, 0)];
+    let mut calls: Vec<Value> = vec![];
+    for p in seqs(&chmod_alpha, maxlen) {
+        calls.push(call_seq("chmod_seq", "/s", "", &p));
+    }
+    for p in seqs(&chown_alpha, maxlen) {
+        calls.push(call_seq("chown_seq", "/s", "", &p));
+    }
+    for p in seqs(&copy_alpha, maxlen) {
+        calls.push(call_seq("copy_seq", "/s", "/t/c", &p));
+    }
+    let mine: Vec<Value> = calls.into_iter().enumerate().filter(|(i, _)| (*i as u64) % workers == worker).map(|(_, c)| c).collect();
+    for chunk in mine.chunks(MAX_STEPS / 2) {
+        run_group(cx, "prog", &setup, chunk, false);
+    }
+}
+
 fn main() {
     silence_panics();
     limit_memory(4 << 30);
@@ -495,6 +546,7 @@ fn main() {
     match set.as_str() {
         "sym" => set_sym(&mut cx, thorough, seed, worker, workers),
         "tree" => set_tree(&mut cx, thorough, seed, worker, workers),
+        "prog" => set_prog(&mut cx, thorough, worker, workers),
         _ => {
             eprintln!("unknown --set {}", set);
             std::process::exit(2);
